@@ -13,6 +13,11 @@
 //	          and without DropDuplicatedRows, read through Rows() and written
 //	          with Writer.WriteRowGroup and read back.
 //
+// The row schema holds, besides the sorting columns and the payload, extra
+// non-key columns (optional, repeated, lists, groups, nested repetition) placed
+// by name before, between and after the sorting columns: rows whose values do
+// not sit at the index of their column.
+//
 // The property predicate (sorted by the comparator, multiset = union of the
 // inputs with whole rows intact, each input's rows in their original order;
 // with dedupe one row per distinct key, each a row of an input) is evaluated
@@ -2444,7 +2449,7 @@ func c09VmCase(cs *c09Case, out [][]c09Out, used []int) string {
 // ---- main ------------------------------------------------------------------
 
 func runC09(c *core.Ctx) {
-	c.Res.Rule = "k = 0..9 sorted inputs generated from overlap patterns (random, disjoint, touching: max of one = min of the next, nested, identical, dense duplicates, chains, long runs; empty inputs; duplicate keys within and across inputs) over key configurations (one or two sorting columns, ascending/descending, required/optional with nulls first/last), input lengths around the buffer sizes 24/48/96/192, ReadRows slice lengths from {1,2,3,23,24,25,64,191,192,193} (1-3 of them, cycled) and scripted source chunkings. readers: parquet.MergeRowReaders over scripted in-memory readers, emitted (input,seq) batches == model (2-way: c09.merge2, k>2: c09.mergek); dedupe: parquet.DedupeRowReader == model; groups: parquet.MergeRowGroups over Buffers and files with small pages (refinement on and off), with and without DropDuplicatedRows, read through Rows() and written with WriteRowGroup then read back; large file-backed cases (2-4 inputs of 1100-5000 rows, PageBufferSize 256..4096 = pages of 50..550 rows): random chains (overlapping, touching, containing, disjoint) and, every other case and 10 fixed corpus cases, shapes built around the boundary cases of the cut lookups of merge_refine.go over two required int64 sorting columns (first ascending or descending): tie-lower (A ends at (v, big) or with a long run of v; B has a run of v spanning several pages of its first column - after a random prefix below v, after a prefix that ends exactly at a page boundary so that a page starts at the first row with value v, or from its first row - with small second-column values, then a lone stretch of >= 1100 rows (sometimes 300-1200, around minStreamedRegionRows = 1024), optionally a third input starting at a long run of B's last value), tie-upper (B alone before C starts at (w, small), B with a run of w spanning pages), tie-chain (3-4 inputs each starting with a run of the previous one's last value), touching (max of one = min of the next), nested (a small row group inside a big one that has lone stretches on both sides, with runs of the small one's first / last value in the big one), identical first-column values everywhere; the arguments are shuffled. For every groups case without DropDuplicatedRows and with refinement enabled the plan Go built is compared with the model (corr:C09.refine, Merge/Refine.v c09_refine): the elements of rowGroupSegments (field `segments` of the *sortedSegmentRowGroup read with reflect+unsafe, or the merged row group itself as the single element) are read one by one through their own Rows() and turned into parts (input, first seq, rows) - the rows of an input inside an element must be an ascending contiguous range (plan-piece-not-a-range) - and must equal the model's pieces (parts sorted by input on both sides, order of the pieces kept); the model is given the keys, the page layout of every sorting column (offset index of the row groups as wrapped by ConvertRowGroup; a Buffer is one page) and whether newCutLookups yields lookups for the first sorting column (its conditions evaluated on the column chunk); buckets refine/plan-sliced (the Go plan contains a row-range part) / plan-unsliced, +tie-at-page-start / -end when a page of the first sorting column of an input starts (ends) with the first-column value of the last (first) row of another input. Failing large cases are shrunk with a small budget (120 probes, the first three of a run only), keeping the kind of failure. The property predicate (sorted, multiset = union with whole rows intact, per-input order; dedupe: one row per distinct key, each an input row) is evaluated on every output with the harness's own comparator. A case is one (inputs, scripts, options); non-trivial = at least two non-empty inputs (dedupe: one); distinct by the JSON of the case."
+	c.Res.Rule = "k = 0..9 sorted inputs generated from overlap patterns (random, disjoint, touching: max of one = min of the next, nested, identical, dense duplicates, chains, long runs; empty inputs; duplicate keys within and across inputs) over key configurations (one to three sorting columns, ascending/descending and mixed directions, required/optional with nulls first/last), input lengths around the buffer sizes 24/48/96/192, ReadRows slice lengths uniform in 1..64 or from {1,2,3,23,24,25,64,191,192,193} (1-3 of them, cycled) and scripted source chunkings. Row schema: a parquet.Group (fields ordered by name) with the sorting columns k0.., the payload p_in/p_seq/p_tag and, in one case in three (one in four of the large cases, all of the extras/ buckets), 1-3 extra non-key columns whose names place their leaves before the first sorting column, between k0 and k1, between the keys and the payload or after the payload, of the shapes required / optional / string leaf, repeated leaf, LIST (required and optional), group (required, optional, repeated: two leaves each) and a repeated leaf inside a repeated group; a row holds 0..3 values per repeated leaf (rep2: up to 4), so the index of a value within the row differs from its column index; the values are a function of (seed, input, seq) and every output row is checked value by value, levels included (row-mangled). extras/<shape>@<position>: every shape at every position through MergeRowReaders (2 and 3-6 readers), MergeRowGroups over buffers, over files, with DropDuplicatedRows, and DedupeRowReader. readers/turns, groups/turns: 2 and 3-7 inputs that take turns in runs of 1..40 rows (every run ends inside the buffered window, ties at one run start in three) read with every slice length 1..64 (run mode: runLength / emitRun). readers: parquet.MergeRowReaders over scripted in-memory readers, emitted (input,seq) batches == model (2-way: c09.merge2, k>2: c09.mergek); dedupe: parquet.DedupeRowReader == model; groups: parquet.MergeRowGroups over Buffers and files with small pages (refinement on and off), with and without DropDuplicatedRows, read through Rows() and written with WriteRowGroup then read back; large file-backed cases (2-4 inputs of 1100-5000 rows, PageBufferSize 256..4096 = pages of 50..550 rows): random chains (overlapping, touching, containing, disjoint) and, every other case and 10 fixed corpus cases, shapes built around the boundary cases of the cut lookups of merge_refine.go over two or three required int64 sorting columns (first ascending or descending, the later ones ascending or descending independently): tie-lower (A ends at (v, big) or with a long run of v; B has a run of v spanning several pages of its first column - after a random prefix below v, after a prefix that ends exactly at a page boundary so that a page starts at the first row with value v, or from its first row - with small second-column values, then a lone stretch of >= 1100 rows (sometimes 300-1200, around minStreamedRegionRows = 1024), optionally a third input starting at a long run of B's last value), tie-upper (B alone before C starts at (w, small), B with a run of w spanning pages), tie-chain (3-4 inputs each starting with a run of the previous one's last value), touching (max of one = min of the next), nested (a small row group inside a big one that has lone stretches on both sides, with runs of the small one's first / last value in the big one), identical first-column values everywhere; the arguments are shuffled. For every groups case without DropDuplicatedRows and with refinement enabled the plan Go built is compared with the model (corr:C09.refine, Merge/Refine.v c09_refine): the elements of rowGroupSegments (field `segments` of the *sortedSegmentRowGroup read with reflect+unsafe, or the merged row group itself as the single element) are read one by one through their own Rows() and turned into parts (input, first seq, rows) - the rows of an input inside an element must be an ascending contiguous range (plan-piece-not-a-range) - and must equal the model's pieces (parts sorted by input on both sides, order of the pieces kept); the model is given the keys, the page layout of every sorting column (offset index of the row groups as wrapped by ConvertRowGroup; a Buffer is one page) and whether newCutLookups yields lookups for the first sorting column (its conditions evaluated on the column chunk); buckets refine/plan-sliced (the Go plan contains a row-range part) / plan-unsliced, +tie-at-page-start / -end when a page of the first sorting column of an input starts (ends) with the first-column value of the last (first) row of another input. Failing large cases are shrunk with a small budget (120 probes, the first three of a run only), keeping the kind of failure. The property predicate (sorted, multiset = union with whole rows intact, per-input order; dedupe: one row per distinct key, each an input row) is evaluated on every output with the harness's own comparator. A case is one (inputs, scripts, options); non-trivial = at least two non-empty inputs (dedupe: one); distinct by the JSON of the case."
 
 	var vm []string
 	vmRows := 0
